@@ -82,6 +82,9 @@ func main() {
 		start := time.Now()
 		r := NewResult(id)
 		checks[id](p, r, *tier)
+		if *tier == "thorough" && flagOnly == "" {
+			selfValidate(id, r, *repo, *verif)
+		}
 		if flagOnly != "" {
 			for k, o := range r.obs {
 				if k != flagOnly {
